@@ -24,7 +24,7 @@ def run(d):
     shutil.rmtree(sc, ignore_errors=True)
     return tag, res
 
-dirs = sorted(glob.glob(V + '/seeded/C*-m*')) + sorted(glob.glob(V + '/seeded/REGRESS-*')) + sorted(glob.glob(V + '/seeded/R2-*')) + sorted(d for d in glob.glob(V + '/benign/*') if os.path.isdir(d))
+dirs = sorted(d for d in glob.glob(V + '/seeded/*') if os.path.isdir(d)) + sorted(d for d in glob.glob(V + '/benign/*') if os.path.isdir(d))
 if len(sys.argv) > 1:
     dirs = [d for d in dirs if any(a in d for a in sys.argv[1:])]
 out = {}
